@@ -173,7 +173,7 @@ def _uniq(fails, k=3):
     return out[:k]
 
 
-KEYS = ["a", "b", "Bad Key", "0", "m_a", "c_1"]
+KEYS = ["a", "b", "Bad Key", "0", "m_a", "c_1", "0:a", "1:a", "p:q:b"]  # keys with a path (as unrolled sub-circuits produce) next to their bare names
 
 
 def _creg_names(text, keys):
@@ -193,6 +193,13 @@ def _creg_names(text, keys):
     return out
 
 
+def _K(key, obj=False):
+    """a key string as the measurement key it denotes ('0:a' is the key a with the path ('0',))"""
+    import cirq
+
+    return cirq.MeasurementKey.parse_serialized(key) if (":" in key or obj) else key
+
+
 def _rand_measured_circuit(rng, version):
     import cirq
     import sympy
@@ -207,13 +214,13 @@ def _rand_measured_circuit(rng, version):
             # the same key measured again (the register is overwritten; Cirq keeps both records and conditions test the latest by default)
             key = rng.choice(list(measured))
             mq = rng.sample(qs, measured[key])
-            ops.append(cirq.measure(*mq, key=key))
+            ops.append(cirq.measure(*mq, key=_K(key)))
             continue
         if r < 0.3 and len(measured) < len(keys):
             key = next(k for k in keys if k not in measured)
             mq = rng.sample(qs, rng.choice([1, 1, 2]) if n >= 2 else 1)
             mask = tuple(rng.random() < 0.4 for _ in range(rng.randrange(0, len(mq) + 1)))
-            ops.append(cirq.measure(*mq, key=key, invert_mask=mask))
+            ops.append(cirq.measure(*mq, key=_K(key), invert_mask=mask))
             measured[key] = len(mq)
             continue
         one, two, three = _op_makers(rng)
@@ -233,7 +240,7 @@ def _rand_measured_circuit(rng, version):
                     conds += others[:1]
                 if rng.random() < 0.2:
                     # an explicit record index: -1 is the default (latest); an earlier record cannot be expressed once the register is overwritten
-                    conds = [cirq.KeyCondition(cirq.MeasurementKey(key), index=rng.choice([-1, 0, 0, -2]))]
+                    conds = [cirq.KeyCondition(_K(key, True), index=rng.choice([-1, 0, 0, -2]))]
                 op = cirq.If(conds if len(conds) > 1 else conds[0], op) if rng.random() < 0.25 else op.with_classical_controls(*conds)
             elif re.fullmatch(r"[a-z][a-zA-Z0-9_]*", key):
                 val = rng.randrange(0, 2 ** measured[key])
@@ -242,14 +249,15 @@ def _rand_measured_circuit(rng, version):
             ops.append(cirq.ResetChannel().on(rng.choice(qs)))
         ops.append(op)
     if not measured:
-        ops.append(cirq.measure(qs[0], key=keys[0]))
+        ops.append(cirq.measure(qs[0], key=_K(keys[0])))
     ops.insert(0, cirq.H(qs[0]))
     ops.insert(1, cirq.X(qs[-1]) ** 0.5)
     return cirq.Circuit(ops, strategy=cirq.InsertStrategy.NEW), list(qs)
 
 
-def compare_measured(c, order, version, precision=10):
-    """None if the program and the circuit agree, else (failed, clause, text)"""
+def compare_measured(c, order, version, precision=10, ref=None):
+    """None if the program and the circuit agree, else (failed, clause, text); `ref` is a flat circuit written by hand that states
+    what `c` means when `c` holds composite operations"""
     import cirq
 
     try:
@@ -264,10 +272,10 @@ def compare_measured(c, order, version, precision=10):
     except qr.QasmError as ex:
         return ("reader-rejects", f"a standard OpenQASM {version} reader rejects the text: {ex}", text)
     try:
-        rb = refsim.ref_branches(c, order)
+        rb = refsim.ref_branches(c if ref is None else ref, order)
     except refsim.ControlBeforeMeasurement:
         return None
-    keys = sorted({k for _, rec, _ in rb for k in rec} | {str(k) for k in cirq.measurement_key_names(c)})
+    keys = sorted({k for _, rec, _ in rb for k in rec} | {str(k) for k in cirq.measurement_key_names(c if ref is None else ref)})
     names = _creg_names(text, keys)
     missing = [k for k in keys if k not in names]
     if missing:
@@ -327,9 +335,49 @@ def standin_measure_control(tier, seed):
         fails.append(dict(args=dict(circuit=repr(c), qubit_order=repr(order), version=version, qasm=text), failed=failed, clause=clause))
         if len({f["failed"] for f in fails}) >= 3:
             break
+    # measurements inside composite operations (written out by decomposition): each needs its register, and later controls read it
+    import cirq
+    for _ in range(n_cases // 8):
+        version = rng.choice(["2.0", "3.0"])
+        qs = _qubits(rng, 2)
+        key = rng.choice(["a", "b", "Bad Key", "m_a"])
+        ctl = lambda k: cirq.X(qs[1]).with_classical_controls(cirq.MeasurementKey.parse_serialized(k) if ":" in k else k)
+        kind = rng.choice(["pauli", "pauli2", "sub", "sub-repeated", "sub-mapped"])
+        if kind in ("pauli", "pauli2"):
+            ps = cirq.PauliString({qs[0]: rng.choice([cirq.X, cirq.Y, cirq.Z])} if kind == "pauli" else {qs[0]: rng.choice([cirq.X, cirq.Y, cirq.Z]), qs[1]: rng.choice([cirq.X, cirq.Y, cirq.Z])},
+                                  coefficient=rng.choice([1, -1]))
+            head = [cirq.H(qs[0]), cirq.T(qs[0]), cirq.X(qs[1]) ** 0.5, cirq.measure_single_paulistring(ps, key=key)]
+            c = cirq.Circuit(head + [ctl(key)], strategy=cirq.InsertStrategy.NEW)
+            ref = c  # the reference semantics know Pauli measurements directly
+        else:
+            body = [cirq.H(qs[0]), cirq.measure(qs[0], key=key), cirq.X(qs[1]).with_classical_controls(key)]
+            sub = cirq.CircuitOperation(cirq.FrozenCircuit(body))
+            if kind == "sub":
+                c, flat = cirq.Circuit(sub, ctl(key), strategy=cirq.InsertStrategy.NEW), body + [ctl(key)]
+            elif kind == "sub-mapped":
+                c = cirq.Circuit(sub.with_measurement_key_mapping({key: "z"}), ctl("z"), strategy=cirq.InsertStrategy.NEW)
+                flat = [cirq.H(qs[0]), cirq.measure(qs[0], key="z"), ctl("z"), ctl("z")]
+            else:
+                c = cirq.Circuit(sub.repeat(2, use_repetition_ids=True), ctl("1:" + key), strategy=cirq.InsertStrategy.NEW)
+                flat = []
+                for rid in ("0", "1"):
+                    mk = cirq.MeasurementKey(key, path=(rid,))
+                    flat += [cirq.H(qs[0]), cirq.measure(qs[0], key=mk), cirq.X(qs[1]).with_classical_controls(mk)]
+                flat.append(ctl("1:" + key))
+            ref = cirq.Circuit(flat, strategy=cirq.InsertStrategy.NEW)
+        cases += 1
+        distinct.add((repr(c), version))
+        r = compare_measured(c, qs, version, ref=ref)
+        if r is None:
+            continue
+        failed, clause, text = r
+        if failed == "refused":
+            refused += 1
+            continue
+        fails.append(dict(args=dict(circuit=repr(c), qubit_order=repr(qs), version=version, qasm=text, composite=kind), failed=failed, clause=clause))
     return dict(function=F + ":QasmOutput[measurements and classical control]", case="measure-control",
                 bound=f"{n_cases} seeded circuits: 2-3 qubits, <= 8 operations, <= 3 measurement keys (valid and invalid identifiers, 1-2 bits, invert masks), "
-                      f"re-measured keys, key (also with explicit record index) / sympy-equality conditions, resets; exact branch enumeration on both sides ({refused} circuits refused by to_qasm with ValueError)",
+                      f"re-measured keys, keys with paths, key (also with explicit record index) / sympy-equality conditions, resets; Pauli-string measurements and (repeated / key-mapped) sub-circuits holding measurements, against flat circuits written by hand; exact branch enumeration on both sides ({refused} circuits refused by to_qasm with ValueError)",
                 cases=cases, distinct=len(distinct), failures=len(fails), exhaustive=False, _fails=_uniq(fails))
 standin_measure_control.prop = "C19"
 
